@@ -3,7 +3,7 @@ import re
 from . import common, projgen, projcheck, projrun, ninjaparse
 from .c03 import contexts_of, chain_of, nearest_rule, ext_of
 
-PROF = projgen.profile(n_builders=(2, 4), n_apps=(1, 3), n_mods=(2, 6), p_rules_override=0.5, p_same_override=0.6, p_always=0.3,
+PROF = projgen.profile(p_odd_app_names=0.12, n_builders=(2, 4), n_apps=(1, 3), n_mods=(2, 6), p_rules_override=0.5, p_same_override=0.6, p_always=0.3,
                        p_nonshare=0.3, p_env=0.5, p_custom_build=0.12, p_build_dep=0.3, p_global_build_dep=0.08, p_download=0.05,
                        p_tasks=0.03, p_app_elsewhere=0.1, p_cli_builders=0.1, p_cli_apps=0.1, p_defaults=0.35)
 OBS = ("status", "decision", "loaded", "ninja")
